@@ -221,6 +221,17 @@ Theorem c15_conforms_rejects :
 Proof. vm_compute. repeat split; reflexivity. Qed.
 Print Assumptions c15_conforms_rejects.
 
+(* Every member name print_json can emit — read off the source by translate/c15_keys.py on every run: the keys of its
+   json! literals, map["..."] assignments and insert(String::from("...")) calls, plus the fields of the serde-derived
+   PossibleBitFlip / BitFlipDetails — is a member name of the documented schema (FINITE CHECK by vm_compute over the two
+   regenerated tables), and the two members outside the model have the documented types the oracle checks them against. *)
+Theorem c15_source_keys_documented :
+  (forall k, In k SOURCE_KEYS -> In k (all_keys DOC_SCHEMA)) /\
+  sub1 DOC_SCHEMA k_soft_errors = SArr SAnyObj /\
+  sub1 (item (sub1 (sub1 DOC_SCHEMA k_crash_info) k_possible_bit_flips)) k_confidence = SF32.
+Proof. split; [apply subset_In; vm_compute; reflexivity|split; reflexivity]. Qed.
+Print Assumptions c15_source_keys_documented.
+
 (* ---- non-vacuity ---- *)
 Example c15_nonvacuous_roundtrip :
   let v := JObj [([97; 34; 92; 10; 1; 128512], JArr [JNum (-42); JNum 0; JNull; JBool true; JStr [31; 127; 8]; JObj []; JArr []])] in
